@@ -391,8 +391,8 @@ class BVReduceBW:
         bw = get_bv_width(node[1])
         bws = sorted(set([bw - 1, bw // 2, 2, 1]))
         varname = '_{}'.format(node[1])
-        if not node[1].is_leaf() or is_piped_symbol(node[1]) or is_var(
-                Node(varname)):
+        if not node[1].is_leaf() or is_piped_symbol(
+                node[1]) or is_declared_symbol(Node(varname)):
             # the name of the fresh variable is not a fresh simple symbol
             return
         for b in bws:
